@@ -29,15 +29,51 @@ class Val:
 
 NP_MAP = {"log": "Transc.log", "exp": "Transc.exp", "sqrt": "Transc.sqrt"}
 BINOPS = {ast.Add: "PyV.oadd", ast.Sub: "PyV.osub", ast.Mult: "PyV.omul", ast.Div: "PyV.odiv"}
-LEAN_TY = {"v": "List (Option α)", "ov": "Option (List (Option α))", "str": "String", "n": "Option α", "table": "List (String × String)"}
+LEAN_TY = {"b": "List Bool", "v": "List (Option α)", "ov": "Option (List (Option α))", "str": "String", "n": "Option α", "table": "List (String × String)"}
 
 
 class VSym:
-    def __init__(self, tree, tables, depth=0, counter=None):
+    def __init__(self, tree, tables, depth=0, counter=None, repo=None, file=None, cls=None):
         self.tree = tree
         self.tables = tables
         self.depth = depth
         self.counter = counter if counter is not None else [0]
+        self.repo, self.file, self.cls = repo, file, cls
+
+    def class_node(self):
+        for n in self.tree.body:
+            if isinstance(n, ast.ClassDef) and n.name == self.cls:
+                return n
+        return None
+
+    def class_property(self, name):
+        """the `return` expression of a @property of the class being translated, or None"""
+        c = self.class_node() if self.cls else None
+        if c is None:
+            return None
+        for m in c.body:
+            if isinstance(m, ast.FunctionDef) and m.name == name and any((dotted(d) or "") == "property" for d in m.decorator_list):
+                body = [st for st in m.body if not (isinstance(st, ast.Expr) and isinstance(st.value, ast.Constant))]
+                if len(body) == 1 and isinstance(body[0], ast.Return) and body[0].value is not None and [a.arg for a in m.args.args] == ["self"]:
+                    return body[0].value
+        return None
+
+    def imported_function(self, name):
+        """a function imported with `from .module import name`: (FunctionDef, tree of that module, file), or None"""
+        if self.repo is None or self.file is None:
+            return None
+        for n in self.tree.body:
+            if isinstance(n, ast.ImportFrom) and n.level == 1 and n.module and any(a.name == name and a.asname is None for a in n.names):
+                path = os.path.join(os.path.dirname(self.file), n.module + ".py")
+                try:
+                    with open(os.path.join(self.repo, path)) as f:
+                        tree = ast.parse(f.read())
+                except OSError:
+                    return None
+                for m in tree.body:
+                    if isinstance(m, ast.FunctionDef) and m.name == name:
+                        return m, tree, path
+        return None
 
     def fresh(self, name):
         self.counter[0] += 1
@@ -88,6 +124,10 @@ class VSym:
             f = self.function_value([(None, node)])
             if f is not None:
                 return f
+            if name.startswith("self.") and name.count(".") == 1:
+                pr = self.class_property(name[5:])
+                if pr is not None:
+                    return self.expr(pr, env, guards)
             raise Untranslatable(f"free name {name}")
         if isinstance(node, ast.Dict) and not node.keys:
             return Val("{}", "empty")
@@ -166,6 +206,8 @@ class VSym:
             key = self.expr(node.slice, env, guards)
             if base.ty == "moddict":
                 return self.dict_lookup(base, key, guards)
+            if base.ty == "v" and key.ty == "b":
+                return Val(f"(PyV.select {base.text} {key.text})", "v")
             raise Untranslatable("subscript")
         if isinstance(node, ast.Call):
             return self.call(node, env, guards)
@@ -473,8 +515,11 @@ class VSym:
 
     def with_value(self, node, env, k):
         """evaluate `node` (possibly a call of a module function, which is inlined) and continue with k(Val)"""
-        if isinstance(node, ast.Call) and isinstance(node.func, ast.Name) and node.func.id not in env and self.module_function(node.func.id) is not None:
-            helper = self.module_function(node.func.id)
+        imported = None
+        if isinstance(node, ast.Call) and isinstance(node.func, ast.Name) and node.func.id not in env and self.module_function(node.func.id) is None:
+            imported = self.imported_function(node.func.id)
+        if isinstance(node, ast.Call) and isinstance(node.func, ast.Name) and node.func.id not in env and (self.module_function(node.func.id) is not None or imported):
+            helper = imported[0] if imported else self.module_function(node.func.id)
             if self.depth >= 3:
                 raise Untranslatable("helper nesting")
             a = helper.args
@@ -504,7 +549,8 @@ class VSym:
                     lets += f"let {fresh} := {v.text}; "
                     v = Val(fresh, v.ty)
                 env2[n] = v
-            sub = VSym(self.tree, self.tables, self.depth + 1, self.counter)
+            sub = VSym(imported[1] if imported else self.tree, self.tables, self.depth + 1, self.counter, repo=self.repo,
+                       file=imported[2] if imported else self.file, cls=None if imported else self.cls)
             body = sub.run(list(helper.body), env2, k)
             body = f"({lets}{body})" if lets else body
             for g in guards:
@@ -531,6 +577,17 @@ TARGETS = [
 ]
 
 
+def _trad_stat(name, method):
+    which = "frq" if "frequency" in method else "amp"
+    return dict(name=name, file="hvsrpy/hvsr_traditional.py", cls="HvsrTraditional", func=method, tables=["DISTRIBUTION_MAP"], args=["self", "distribution"],
+                params=[("distribution", "str"), (f"self._main_peak_{which}", "v"), ("self.valid_peak_boolean_mask", "b")])
+
+
+# the accessor layer of HvsrTraditional: WHICH array and WHICH mask feed the estimator (C05; the estimator itself is inlined from statistics.py)
+TARGETS += [_trad_stat("trad_mean_fn_frequency", "mean_fn_frequency"), _trad_stat("trad_std_fn_frequency", "std_fn_frequency"),
+            _trad_stat("trad_mean_fn_amplitude", "mean_fn_amplitude"), _trad_stat("trad_std_fn_amplitude", "std_fn_amplitude")]
+
+
 def translate(repo, spec):
     binders = " ".join(f"({lean_ident(t)} : {LEAN_TY['table']})" for t in spec["tables"]) + " " + \
         " ".join(f"({lean_ident(p)} : {LEAN_TY[t]})" for p, t in spec["params"])
@@ -538,8 +595,12 @@ def translate(repo, spec):
     try:
         with open(os.path.join(repo, spec["file"])) as f:
             tree = ast.parse(f.read())
-        sym = VSym(tree, spec["tables"])
-        fn = sym.module_function(spec["func"])
+        sym = VSym(tree, spec["tables"], repo=repo, file=spec["file"], cls=spec.get("cls"))
+        if spec.get("cls"):
+            c = sym.class_node()
+            fn = next((m for m in (c.body if c else []) if isinstance(m, ast.FunctionDef) and m.name == spec["func"]), None)
+        else:
+            fn = sym.module_function(spec["func"])
         if fn is None:
             raise Untranslatable(f"function {spec['func']} not found")
         names = [a.arg for a in fn.args.args]
@@ -574,7 +635,7 @@ def emit(repo):
     return status, "\n".join(L) + "\n"
 
 
-READ = {"v": "optVec", "ov": "optOptVec", "str": "tok"}
+READ = {"v": "optVec", "ov": "optOptVec", "str": "tok", "b": "boolVec"}
 
 
 def emit_driver(status):
